@@ -17,6 +17,15 @@ CLAIMED = {
  "C07": dict(cat="exploration", ref="DESIGN.md §3.4", tech="deterministic simulation: seeded operation histories with save/reload as an operation, step-wise refinement against an insertion-ordered list model",
    text="Seeded histories of set / delete / has / get / set_title / idempotence probe / serialize / save-and-reload on one TextArchive, compared after every step with an insertion-ordered list model (order, values, escaping, dirty flag) and with the label order of the serialized image read by an independent reader. Exploration is the right level: the property quantifies over histories; deletion and re-insertion orders are what the three unit tests never reach.",
    note="Trusted: the list model and reference image reader (harness code). After a reload the model is re-synchronised (content preservation is C06, not claimed)."),
+ "C12": dict(cat="exploration", ref="DESIGN.md §3.1", tech="deterministic simulation of a layered store on a real private tmpfs: seeded multi-handle histories, injected torn writes / failing opens / vanishing layers / corrupted files, step-wise refinement against a mirror model with whole-disk comparison",
+   text="Simulated disk shared by 1-3 handles and an environment actor; every call's result and the complete content of every layer directory are compared with the FsModel mirror after each step (top layer wins, writes only touch the top layer, read-after-write incl. compressed names validated by an independent LZ reader, existence queries, typed helpers = byte-level call composed with the codec the table prescribes). Half of the runs inject I/O faults at calls that create in-flight state (RLIMIT_FSIZE torn write, RLIMIT_NOFILE failing open) and storage faults at rest. Exploration is the right level: the property quantifies over histories, layer stacks, games and payloads; shadowing, conflicts and fault timing only line up in multi-step sequences.",
+   note="Trusted: FsModel, the reference LZ reader, the specification table (harness code); the kernel's tmpfs and rlimits as the fault injector. Under faults only the unconditional clauses are asserted (see evidence assumptions)."),
+ "C13": dict(cat="exploration", ref="DESIGN.md §3.1", tech="deterministic simulation of a layered store: seeded histories, listings compared with a directory-walk model after arbitrary prior writes and under failing directory reads",
+   text="Listing-heavy seeded histories on the simulated disk: list / subdirectories results must equal the sorted duplicate-free union computed by the model from the mirrored layers, for root, nested, missing and file paths, a probed glob family, localized and not, after arbitrary prior writes, removals and vanished layers; every listed path must exist according to exists().",
+   note="Trusted: FsModel's union rule and glob-family matcher (probed against the glob crate). Under a failing-open fault a subset is accepted."),
+ "C14": dict(cat="exploration", ref="DESIGN.md §3.1", tech="deterministic simulation of a layered store with localized operations checked against a specification table on disk, plus direct enumeration of the 6x8 localizer table",
+   text="All 40 game x language pairs are cycled over simulated worlds in which 70 % of operations are localized; the on-disk location addressed by every localized write/read/exists/list must be the table-localized one, and the localizer functions themselves are enumerated against the table (all 6 localizers x 8 languages, generated and degenerate paths).",
+   note="Trusted: the marker table copied from the pinned code (now the specification). The table half is enumeration of a pure function, stated as such; the disk half is what needs the simulator."),
 }
 NA = {
  "C01": "pure function: parse(serialize(a)) of one in-memory value and parsing of re-arranged images; no schedule, clock, fault or shared state in the quantifier (inputs x configurations only) - input generation alone would decide it, which is not simulation",
